@@ -558,25 +558,41 @@ Qed.
 Lemma mem_upd : forall t add u l, mem t (upd add u l) = if text_eqb t u then add else mem t l.
 Proof. intros. unfold upd. destruct add. apply mem_add_tag. apply mem_del_tag. Qed.
 
-(* in-place registries: whatever the entry points, no subclass ever gets its own registry, and the shared one holds
-   exactly the tags whose last call was a register *)
-Lemma inplace_fold : forall t h st b,
+(* in-place registries whose register and unregister treat the tag argument alike: whatever the entry points and
+   spellings, no subclass ever gets its own registry, and the shared one is the map the specification describes *)
+Lemma inplace_fold : forall norm t h st b,
   rs_shadow st = [] -> mem t (rs_base st) = b ->
-  rs_shadow (fold_left (reg_step true) h st) = [] /\
-  mem t (rs_base (fold_left (reg_step true) h st)) = fold_left (last_wins t) h b.
+  rs_shadow (fold_left (reg_step true norm norm) h st) = [] /\
+  mem t (rs_base (fold_left (reg_step true norm norm) h st)) = fold_left (last_wins norm t) h b.
 Proof.
   induction h as [|op h IH]; simpl; intros st b Hs Hm; auto.
-  apply IH.
-  - unfold reg_step. destruct (op_ep op); simpl; auto. rewrite Hs. simpl. auto.
-  - unfold reg_step, last_wins. destruct (op_ep op); simpl; [|rewrite Hs; simpl]; rewrite mem_upd, Hm; reflexivity.
+  assert (Hstep : rs_shadow (reg_step true norm norm st op) = [] /\
+                  mem t (rs_base (reg_step true norm norm st op)) = last_wins norm t b op).
+  { unfold reg_step, last_wins. replace (if op_add op then norm else norm) with norm by (destruct (op_add op); reflexivity).
+    destruct (key_of norm op) as [k|]; [|auto].
+    unfold reg_step_key. destruct (op_ep op); simpl; [|rewrite Hs; simpl]; rewrite mem_upd, Hm; auto. }
+  destruct Hstep as [S1 S2]. apply IH; auto.
 Qed.
 
-Lemma inplace_history : forall k h s t,
-  mem t (effective true k h s) = currently_registered k h t.
+Lemma inplace_history : forall norm k h s t,
+  mem t (effective true norm norm k h s) = currently_registered norm k h t.
 Proof.
-  intros k h s t. unfold effective, run_hist, currently_registered, view.
-  destruct (inplace_fold t (of_kind k h) {| rs_base := []; rs_shadow := [] |} false eq_refl eq_refl) as [H1 H2].
+  intros norm k h s t. unfold effective, run_hist, currently_registered, view.
+  destruct (inplace_fold norm t (of_kind k h) {| rs_base := []; rs_shadow := [] |} false eq_refl eq_refl) as [H1 H2].
   rewrite H1. simpl. exact H2.
+Qed.
+
+(* registry as a map: unregister(x) right after register(x), with the same argument x in any spelling that register
+   accepts and through any two entry points, leaves x's key unregistered *)
+Lemma fold_left_app2 : forall A B (f : A -> B -> A) l x y a, fold_left f (l ++ [x; y]) a = f (f (fold_left f l a) x) y.
+Proof. intros. rewrite fold_left_app. reflexivity. Qed.
+Lemma unregister_undoes_register : forall norm k h ep1 ep2 op key,
+  op_kind op = k -> key_of norm op = Some key ->
+  currently_registered norm k (h ++ [same_arg true ep1 op; same_arg false ep2 op]) key = false.
+Proof.
+  intros norm k h ep1 ep2 op key Hk Hkey. unfold currently_registered, of_kind.
+  rewrite filter_app. simpl. rewrite Hk. assert (Hkk : kind_eqb k k = true) by (destruct k; reflexivity). rewrite Hkk.
+  rewrite fold_left_app2. unfold last_wins at 1. unfold key_of, same_arg in *. simpl. rewrite Hkey. rewrite text_eqb_refl. reflexivity.
 Qed.
 
 (* ---------------------------------------------------------------- at the tables generated from Pyro5/serializers.py *)
@@ -669,6 +685,7 @@ Proof.
   - vm_compute. auto 10.
 Qed.
 
+
 (* ---------------------------------------------------------------- one tagged dict: the serializer's special tag, then the registry *)
 Lemma d2c_node_special : forall E pre chain tagkey argskey attrkey reg special sub keys vals,
   special_hit special (node_tag tagkey keys vals) = true ->
@@ -695,18 +712,33 @@ Qed.
 (* ---------------------------------------------------------------- registry histories at the generated mode *)
 Lemma gen_registries_inplace : reg_d2c_inplace && reg_c2d_inplace = true.
 Proof. vm_compute. reflexivity. Qed.
+(* register and unregister agree on how they read their tag argument (both decode a bytes tag, or neither does) *)
+Lemma gen_registry_keys_agree : Bool.eqb reg_d2c_norm_register reg_d2c_norm_unregister = true.
+Proof. vm_compute. reflexivity. Qed.
 
-Lemma gen_registry_histories : forall k h s t, mem t (gen_effective k h s) = currently_registered k h t.
+Definition gen_norm (k : regkind) : bool := gen_norm_register k.
+Definition gen_registered (k : regkind) (h : list regop) (t : text) : bool := currently_registered (gen_norm k) k h t.
+
+Lemma gen_registry_histories : forall k h s t, mem t (gen_effective k h s) = gen_registered k h t.
 Proof.
-  intros k h s t. unfold gen_effective. pose proof gen_registries_inplace as H. apply andb_true_iff in H. destruct H as [H1 H2].
-  destruct k; [rewrite H1 | rewrite H2]; apply inplace_history.
+  intros k h s t. unfold gen_effective, gen_registered, gen_norm.
+  pose proof gen_registries_inplace as H. apply andb_true_iff in H. destruct H as [H1 H2].
+  pose proof gen_registry_keys_agree as H3. apply eqb_prop in H3.
+  destruct k; unfold gen_inplace, gen_norm_register, gen_norm_unregister.
+  - rewrite H1, <- H3. apply inplace_history.
+  - rewrite H2. apply inplace_history.
 Qed.
+
+Lemma gen_unregister_undoes_register : forall k h ep1 ep2 op key ser,
+  op_kind op = k -> key_of (gen_norm k) op = Some key ->
+  mem key (gen_effective k (h ++ [same_arg true ep1 op; same_arg false ep2 op]) ser) = false.
+Proof. intros. rewrite gen_registry_histories. apply unregister_undoes_register; auto. Qed.
 
 (* only_registry_escapes over histories: after ANY sequence of register / unregister calls through any entry points,
    decoding with ANY serializer runs the converter exactly for the tags whose last call was a register *)
 Lemma gen_only_registry_escapes_hist : forall h ser,
-  (forall tag flag imps t, gen_decide (gen_effective KD2C h ser) tag flag = (imps, ACustom t) -> currently_registered KD2C h t = true) /\
-  (forall s flag, currently_registered KD2C h s = true -> gen_decide (gen_effective KD2C h ser) (VStr s) flag = ([], ACustom s)).
+  (forall tag flag imps t, gen_decide (gen_effective KD2C h ser) tag flag = (imps, ACustom t) -> gen_registered KD2C h t = true) /\
+  (forall s flag, gen_registered KD2C h s = true -> gen_decide (gen_effective KD2C h ser) (VStr s) flag = ([], ACustom s)).
 Proof.
   intros h ser. destruct (gen_only_registry_escapes (gen_effective KD2C h ser)) as [H1 H2]. split.
   - intros tag flag imps t Hd. rewrite <- (gen_registry_histories KD2C h ser t). apply In_mem. eapply H1; eauto.
@@ -717,7 +749,7 @@ Lemma gen_recreate_types_hist : forall h ser call parts,
   Forall plain parts ->
   let reg := gen_effective KD2C h ser in
   Forall (event_ok gen_env reg) (fst (gen_run reg ser call parts)) /\
-  (forall t, In (EvConverter t) (fst (gen_run reg ser call parts)) -> currently_registered KD2C h t = true) /\
+  (forall t, In (EvConverter t) (fst (gen_run reg ser call parts)) -> gen_registered KD2C h t = true) /\
   forall out, snd (gen_run reg ser call parts) = Ok out -> Forall (vall (class_ok gen_env reg)) out.
 Proof.
   intros h ser call parts Hp reg. destruct (gen_recreate_types reg ser call parts Hp) as [H1 H2]. split; [|split]; auto.
@@ -727,10 +759,10 @@ Qed.
 
 (* the defective variant: registries rebound through cls.  Registering through a concrete serializer class and
    unregistering through the api leaves the converter active for that serializer. *)
-Lemma rebind_refuted : exists h s t, mem t (effective false KD2C h s) = true /\ currently_registered KD2C h t = false.
+Lemma rebind_refuted : exists h s t, mem t (effective false false false KD2C h s) = true /\ currently_registered false KD2C h t = false.
 Proof.
-  exists [ {| op_add := true; op_ep := EpSer 3; op_kind := KD2C; op_tag := txt "shop.Order" |};
-           {| op_add := false; op_ep := EpBase; op_kind := KD2C; op_tag := txt "shop.Order" |} ], 3%N, (txt "shop.Order").
+  exists [ {| op_add := true; op_ep := EpSer 3; op_kind := KD2C; op_bytes := false; op_tag := txt "shop.Order" |};
+           {| op_add := false; op_ep := EpBase; op_kind := KD2C; op_bytes := false; op_tag := txt "shop.Order" |} ], 3%N, (txt "shop.Order").
   vm_compute. auto.
 Qed.
 
@@ -743,10 +775,20 @@ Lemma gen_node_special_or_registry : forall h ser sub keys vals,
   let node := d2c_node gen_env dtc_pre dtc_chain dtc_tagkey mkexc_argskey mkexc_attrkey reg special sub keys vals in
   (special_hit special (node_tag dtc_tagkey keys vals) = true -> fst node = [] /\ forall v, snd node = Ok v -> v = VFloat true) /\
   (forall s, special_hit special (node_tag dtc_tagkey keys vals) = false -> node_tag dtc_tagkey keys vals = VStr s ->
-             currently_registered KD2C h s = true -> node = ([EvConverter s], Ok (VObj (CCustom s) []))).
+             gen_registered KD2C h s = true -> node = ([EvConverter s], Ok (VObj (CCustom s) []))).
 Proof.
   intros h ser sub keys vals reg special node. split.
   - intros H. apply d2c_node_special. exact H.
   - intros s H Ht Hc. apply d2c_node_registered; auto using gen_registry_first.
     unfold reg. rewrite gen_registry_histories. exact Hc.
+Qed.
+
+(* the defective variant: register decodes a bytes tag, unregister does not.  unregister(b"shop.Order") right after
+   register(b"shop.Order") removes nothing: the converter stays live for the text tag. *)
+Lemma key_mismatch_refuted : exists op key,
+  key_of true op = Some key /\
+  mem key (effective true true false KD2C [same_arg true EpBase op; same_arg false EpBase op] 3) = true.
+Proof.
+  exists {| op_add := true; op_ep := EpBase; op_kind := KD2C; op_bytes := true; op_tag := txt "shop.Order" |}, (txt "shop.Order").
+  vm_compute. auto.
 Qed.
